@@ -198,7 +198,8 @@ theorem decodeDct_leading (l : LeadLeaf) (h : l.ok) (d : DecState)
 theorem LeadLeaf.decode_eq (l : LeadLeaf) (h : l.ok) (fuel : Nat) (hf : 2 ≤ fuel) (d : DecState) (hfit : l.pair.fits d) :
     decodeParam fuel l.toParam d true = .ok ((l.pair.dec d).1, (l.pair.dec d).2) := by
   obtain ⟨f, rfl⟩ : ∃ f, fuel = f + 2 := ⟨fuel - 2, by omega⟩
-  obtain ⟨⟨hlen, hb, hall, hraw⟩, hn⟩ := hfit
+  obtain ⟨⟨hfo, hb, hall, hraw⟩, hn⟩ := hfit
+  have hlen := ofObj_fits_len _ _ d hfo
   cases hbp : l.bytePos <;>
   · simp only [LeadLeaf.lenObj, Pair.ofObj, decStep, Obj.pos, Obj.k, Obj.bp, hbp] at hlen hb hraw hn
     have hrun := decodeDct_leading l h { d with cursorByte := posOf l.bytePos d.origin d.cursorByte, cursorBit := l.bitPos.getD 0 }
